@@ -15,7 +15,18 @@ Definition outcome_eqb (a b : outcome Z) : bool :=
   | Panic x, Panic y => x =? y
   | _, _ => false
   end.
-Definition ln_out (x : Z) : outcome Z := match ref_ln x with Some v => Ok v | None => Panic 1 end.
+(* ref_ln with the continued-fraction state kept: (value, n at exit).  n <= 1002 means the
+   loop of mp_ln_n (cap: n <= max_n + 2 = 1002) ended by convergence, not by its cap.
+   RunFacts.v proves  ref_ln x = option_map fst (ref_ln_it x). *)
+Definition ref_ln_it (x : Z) : option (Z * Z) :=
+  if x <=? 0 then None
+  else
+    let n := find_e x in
+    let rop := n * PREC in
+    let st := mp_ln_n_state 1000 (fp_div x (ref_exp rop) - ONE) EPS in
+    Some (rop + ln_conv st, ln_n st).
+Definition ln_out (x : Z) : outcome Z := match ref_ln_it x with Some (v, _) => Ok v | None => Panic 1 end.
+Definition ln_converged (x : Z) : bool := match ref_ln_it x with Some (_, it) => it <=? 1002 | None => true end.
 
 Definition case_out (c : case) : outcome Z :=
   match c with
@@ -23,9 +34,15 @@ Definition case_out (c : case) : outcome Z :=
   | CLn x _ => ln_out x
   | CPow b e _ => ref_pow b e
   end.
+(* a CLn case is ok when the value agrees digit for digit AND the model's continued
+   fraction stopped by itself (the cap was not the reason for the result) *)
 Definition case_ok (c : case) : bool :=
   match c with
   | CExp x res => ref_exp x =? res
-  | CLn x res => outcome_eqb (ln_out x) res
+  | CLn x res =>
+    match ref_ln_it x with
+    | Some (v, it) => outcome_eqb (Ok v) res && (it <=? 1002)
+    | None => outcome_eqb (Panic 1) res
+    end
   | CPow b e res => outcome_eqb (ref_pow b e) res
   end.
